@@ -213,8 +213,12 @@ class QuotientFilter:
 
         # find first empty location
         start = 0
-        while not self._is_empty_element(start):
+        while start < self._size and not self._is_empty_element(start):
             start += 1
+        if start == self._size:  # completely full: start the walk at the beginning of a cluster instead
+            start = 0
+            while start < self._size - 1 and not self._is_cluster_start(start):
+                start += 1
 
         cur_quot = 0
         for i in range(start, self._size + start):  # this will allow for wrap-arounds
